@@ -439,8 +439,13 @@ func checkC11(c *Ctx, r *Report) {
 			// (a) result-empty fallbacks
 			seen := map[string]bool{}
 			for _, fb := range pr.ResultFallback {
-				k := fb[strings.LastIndex(fb, " at ")+4:]
-				fnName := funcAtPos(c, k)
+				// identified by WHICH filtering is undone (the predicates lost), not by the function the fallback lives in
+				fnName := "without?"
+				if i := strings.Index(fb, "(without ["); i >= 0 {
+					if j := strings.Index(fb[i:], "])"); j >= 0 {
+						fnName = "without[" + strings.ReplaceAll(fb[i+len("(without ["):i+j], " ", ",") + "]"
+					}
+				}
 				if seen[fnName] {
 					continue
 				}
